@@ -47,6 +47,44 @@ def case_term(c):
         "; ".join(op_term(o) for o in c["ops"]), "; ".join(obs_term(o) for o in c["obs"])))
 
 
+def victim_monitor(c):
+    """LRU and LFU victims by DEFINITION (independent of the model's list structures): an entry evicted to make room is, at that moment,
+    the least recently accessed (LRU) / one of the least frequently accessed (LFU) of the entries present.  Synchronous, non-expiring
+    caches only (evictions are attributed to the operation that caused them)."""
+    if c["policy"] not in ("lru", "lfu") or not c["sync"] or c["expiry"] > 0:
+        return None
+    cnt, last, clock, closed = {}, {}, 0, False
+    for i, (o, ob) in enumerate(zip(c["ops"], c["obs"])):
+        clock += 1
+        k, a = o["k"], o.get("a", 0)
+        if closed or k == "close":
+            closed = True
+            continue
+        ev = ob.get("ev") or []
+        if k == "set" and a in cnt:
+            cnt[a] += 1
+            last[a] = clock
+        elif k == "get" and ob["r"] == "hit" and a in cnt:
+            cnt[a] += 1
+            last[a] = clock
+        for e in ev:
+            x = e[0]
+            if x not in cnt:
+                return "op %d: evicted key %d was not present" % (i, x)
+            if c["policy"] == "lru" and last[x] != min(last.values()):
+                return "op %d (%s %d): LRU evicted key %d although key %d was used less recently" % (i, k, a, x, min(last, key=last.get))
+            if c["policy"] == "lfu" and cnt[x] != min(cnt.values()):
+                y = min(cnt, key=cnt.get)
+                return "op %d (%s %d): LFU evicted key %d (used %d times) although key %d was used only %d times" % (i, k, a, x, cnt[x], y, cnt[y])
+            del cnt[x], last[x]
+        if k == "set" and a not in cnt:
+            cnt[a], last[a] = 1, clock
+        elif k == "del":
+            cnt.pop(a, None)
+            last.pop(a, None)
+    return None
+
+
 def main(tier, seed, replay):
     ck = Check("C15", tier, seed)
     ck.coq_theorems()
@@ -77,6 +115,13 @@ def main(tier, seed, replay):
         if os.path.exists(binp):
             os.remove(binp)
 
+    nvict = 0
+    for c in cases:
+        m = victim_monitor(c)
+        nvict += c["policy"] in ("lru", "lfu") and c["sync"] and c["expiry"] == 0
+        if m:
+            c["viol"] = (c.get("viol") or []) + ["victim: " + m]
+    ck.cov["victim_definition_monitor_cases"] = nvict
     viol = [c for c in cases if c.get("viol")]
     bad, errs, dt = vlib.coq_mismatches("c15", "From Coq Require Import List ZArith.\nImport ListNotations.\nFrom Asherah Require Import Cache.Generic Cases.C15Run.\nOpen Scope Z_scope.",
                                         "ccase", [case_term(c) for c in cases], "mismatches_from", shard=300)
